@@ -14,6 +14,7 @@ from bitproto._ast import (
     Enum,
     Int,
     Message,
+    Proto,
     SingleType,
 )
 from bitproto.renderer.block import (
@@ -67,7 +68,22 @@ class BlockImportChildProtoList(BlockComposition[F]):
         return [
             BlockImportChildProto(proto, name)
             for name, proto in self.bound.protos(recursive=False)
+            if self.is_child_proto_used(proto)
         ]
+
+    def is_child_proto_used(self, proto: Proto) -> bool:
+        """Golang refuses imports not used. A child proto is used by the go
+        code only if a message field or an alias refers to a type declared in
+        it (constants are substituted by their values)."""
+        bound = self.bound
+        types = [f.type for _, f in bound.message_fields(recursive=True, bound=bound)]
+        types += [a.type for _, a in bound.aliases(recursive=True, bound=bound)]
+        for t in types:
+            if isinstance(t, Array):
+                t = t.element_type
+            if isinstance(t, BoundDefinition) and t.bound is proto:
+                return True
+        return False
 
     @override(BlockComposition)
     def separator(self) -> str:
